@@ -674,6 +674,11 @@ int asn1_int_from_der_ex(int tag, int *a, const uint8_t **in, size_t *inlen)
 		error_print();
 		return -1;
 	}
+	// value >= 2^31 does not fit an int (and the shift below would overflow)
+	if (len == sizeof(*a) && (p[0] & 0x80)) {
+		error_print();
+		return -1;
+	}
 
 	*a = 0;
 	for (i = 0; i < len; i++) {
